@@ -85,7 +85,9 @@ def gen(seed: int, tier: str) -> dict[str, Any]:
            "bad_dev_mac": (not clean) and rng.random() < 0.05, "auth_fail": (not clean) and rng.random() < 0.05,
            # the gateway refuses the first authentication(s) (e.g. no free tunnel for that user yet); the user calls
            # connect() again on the same object
-           "auth_refused_first": rng.choice([1, 1, 2]) if (not clean) and rng.random() < 0.12 else 0}
+           "auth_refused_first": rng.choice([1, 1, 2]) if (not clean) and rng.random() < 0.12 else 0,
+           # the gateway hands out the lowest free session id: a reconnect gets the id of the session before (new key)
+           "lowest_free_sid": rng.random() < 0.5}
     if cfg["bad_dev_mac"] or cfg["auth_fail"]:
         cfg["auth_refused_first"] = 0
     return {"seed": seed, "tier": "S", "config": cfg, "ops": ops}
@@ -102,6 +104,7 @@ def run(plan: dict[str, Any]) -> dict[str, Any]:
     loop, net = R.loop, R.net
     rng = random.Random(plan["seed"] ^ 0xC29)
     gw = SecureGateway(net, rng)
+    gw.lowest_free_sid = bool(cfg.get("lowest_free_sid"))
     gw.bad_dev_mac = cfg["bad_dev_mac"]
     if cfg["auth_fail"]:
         gw.auth_result = 1
@@ -369,6 +372,12 @@ def run(plan: dict[str, Any]) -> dict[str, Any]:
             await tunnel.disconnect()
         except CommunicationError:
             pass
+        except Exception as exc:  # pylint: disable=broad-except
+            import traceback
+            tb = traceback.extract_tb(exc.__traceback__)
+            inner = next((f for f in reversed(tb) if "/xknx/" in f.filename), tb[-1])
+            R.violate("C29.no-escape", f"{type(exc).__name__}@{inner.name}:from-disconnect",
+                      f"Tunnel.disconnect() raised {exc!r} (session state left behind by an earlier handshake)")
         await asyncio.sleep(0.5)
         for t in tasks:
             if not t.done():
